@@ -100,21 +100,35 @@ def run(ctx, rep):
                 # an empty shuffle (empty island) is an empty field: encode as a lone space-free token list
                 lines.append(line)
                 meta.append((case, [(" ".join(f"{i}:{1 if f else 0}" for i, f in p) or "-") for p in after]))
-    # generational age
-    for t in range(ctx.n(20, 100)):
+    # generational age: histories of evolve calls on archipelagos built from fresh and from pre-evolved templates, with an
+    # island now and then evolved directly between the calls (seed C11-I: archipelago age tied to the islands' counters)
+    for t in range(ctx.n(30, 150)):
         with warnings.catch_warnings():
             warnings.simplefilter("ignore")
             tmpl, _ = simple_island(4)
+            k = rng.choice([0, 0, 1, 2, 3])
+            if k:
+                np.random.seed(rng.randrange(2 ** 31))
+                tmpl.evolve(k)
             arch = SerialArchipelago(tmpl, num_islands=rng.randrange(1, 4))
-            a0 = arch.generational_age
-            n = rng.randrange(1, 5)
-            np.random.seed(rng.randrange(2 ** 31))
-            arch.evolve(n)
-        rep.case(("age", t, n), True)
-        if arch.generational_age != a0 + n:
-            rep.violate(f"evolve({n}) advanced the generational age by {arch.generational_age - a0}", "C11:age", {"n": n})
-        if any(isl.generational_age != a0 + n for isl in arch.islands):
-            rep.violate(f"evolve({n}) did not advance every island by {n}", "C11:age", {"n": n})
+            hist = []
+            for call in range(rng.randrange(1, 4)):
+                if rng.random() < 0.3:
+                    j = rng.randrange(1, 3)
+                    arch.islands[rng.randrange(len(arch.islands))].evolve(j)
+                    hist.append(f"island.evolve({j})")
+                a0 = arch.generational_age
+                i0 = [isl.generational_age for isl in arch.islands]
+                n = rng.randrange(1, 5)
+                np.random.seed(rng.randrange(2 ** 31))
+                arch.evolve(n)
+                hist.append(f"evolve({n})")
+                case = {"template_age": k, "history": list(hist), "n": n}
+                rep.case(("age", t, call, k, tuple(hist)), True)
+                if arch.generational_age != a0 + n:
+                    rep.violate(f"evolve({n}) advanced the archipelago's generational age by {arch.generational_age - a0}", "C11:age", case)
+                if any(isl.generational_age != b + n for isl, b in zip(arch.islands, i0)):
+                    rep.violate(f"evolve({n}) did not advance every island by {n}", "C11:age", case)
     if ctx.driver_ok:
         outs = run_driver(lines)
         rep.corr_cases = len(lines)
